@@ -17,6 +17,7 @@ def c01(run):
     run.trace("roundtrip-canon", Q(run, 4, 200))
     run.trace("big-frames", Q(run, 4, 12), types=["sse.SseBinary", "szse.SzseBinary", "risk.RcBinary", "sample.RootPacket", "bse.BjseBinary"], seed_off=300, chunk=30)
     run.trace("stream", Q(run, 2, 30), seed_off=100)
+    run.trace("prim-sweep", Q(run, 1, 2), seed_off=200, chunk=600)
     run.assumptions += ["canonical domain decided by Canonical(T, v) in Codec.tla", "self-computed fields compared with the object the encoder left behind (their correctness is C04/C05)"]
     return run.finish(RULE_TRACE)
 
@@ -29,6 +30,7 @@ def c02(run):
     path, st = run.child_trace(run.spec_images(Q(run, 2, 40), reencode=False), "spec-images")
     run.judge(path, st, "spec-images")
     run.trace("prim-sweep", Q(run, 1, 2), seed_off=400, chunk=600)
+    run.trace("neighbours", Q(run, 1, 4), seed_off=500)
     run.trace("registry-frames", Q(run, 20, 1000), types=["sse.SseBinary", "szse.SzseBinary", "sample.RootPacket"], seed_off=300)
     run.assumptions += ["the pinned schema was frozen from the pinned commit (the .pdsl sources are not in the repository); byte order is per protocol, taken from the scalar fields"]
     return run.finish(RULE_TRACE)
@@ -94,6 +96,8 @@ def c07(run):
 def c08(run):
     run.format_theorems(Q(run, 1, 6))
     run.trace("reencode", Q(run, 5, 300))
+    run.trace("big-frames", Q(run, 4, 12), types=["sse.SseBinary", "szse.SzseBinary", "risk.RcBinary", "sample.RootPacket", "bse.BjseBinary"], seed_off=300, chunk=30)
+    run.trace("neighbours", Q(run, 1, 4), seed_off=500)
     path, st = run.child_trace(run.spec_images(Q(run, 2, 40)), "spec-images")
     run.judge(path, st, "spec-images")
     return run.finish(RULE_TRACE + "A: wire images rendered by the specification (Images.tla: the pinned rendering of sample values of all 170 types with every fixed text "
